@@ -352,6 +352,8 @@ def run_case(case):
             return ('missing' if v is None else 'empty' if v == b'' else
                     'new' if v == g else 'old' if v == o else 'partial')
 
+        follow_n = [0]
+
         def follow_ups(label, fault_desc, key, nontrivial_hint):
             """After the faulty run: one and two ordinary runs of the back end."""
             after_fault = w.files()
@@ -385,8 +387,20 @@ def run_case(case):
                                  conf(old_aux.get('.bfg_environ') or b''),
                                  conf(good_aux.get('.bfg_environ') or b''))
             st['environ'] = env_state
+            # the next regeneration attempt is either the back end's own (make / ninja decide
+            # whether to call `bfg9000 regenerate --lazy`) or, for every other fault, that
+            # command typed by hand - it must not report success over broken files either
+            follow_n[0] += 1
+            cli_first = follow_n[0] % 2 == 0 and os.path.isdir(w.bld)
             for attempt in (1, 2):
-                rc, out = w.backend_run()
+                if attempt == 1 and cli_first:
+                    proj.settle()
+                    rc, out = core.run([os.path.join(core.VENV_BIN, 'bfg9000'), 'regenerate',
+                                        '--lazy', w.bld], cwd=w.src, env=w.plain_env,
+                                       timeout=180)
+                    res.ev('followups:cli-lazy-first')
+                else:
+                    rc, out = w.backend_run()
                 res.ev('followups:judged')
                 now = w.files()
                 if scenario == 'reconfigure' and rc == 0 and now == old and \
@@ -420,6 +434,9 @@ def run_case(case):
                                 (('after-two-faults',) if label.startswith('double') else ()),
                                 dict(wb, kind=label, fault=fault_desc, state_after_fault=st,
                                      stale_files=state, followup=attempt,
+                                     followup_command=('bfg9000 regenerate --lazy'
+                                                       if attempt == 1 and cli_first
+                                                       else 'back end'),
                                      output=out[-400:], half_written=half))
                     return st
                 if rc == 0:
